@@ -2,13 +2,38 @@
    (Go merge, Rego decision functions, main.rego report/aggregate, Linter.Lint,
    Linter.DetermineEnabledRules) as data; these functions compare it with Model/Precedence.v and
    with the README specification.  No theorems here. *)
+From Coq Require Import String Ascii.
 From Regal Require Export Model.Precedence.
 From Regal Require Import Gen.RulesTable.
+
+(* compact literals for the generated case files (number literals are slow to parse) *)
+Fixpoint b (s : string) : str :=
+  match s with EmptyString => [] | String a s' => N_of_ascii a :: b s' end.
+
+(* two characters per index, base 64 from "0" *)
+Fixpoint ixs (s : string) : list nat :=
+  match s with
+  | String a (String a' s') => N.to_nat ((N_of_ascii a - 48) * 64 + (N_of_ascii a' - 48)) :: ixs s'
+  | _ => []
+  end.
 
 Fixpoint failing {A} (p : A -> bool) (i : nat) (l : list A) : list nat :=
   match l with
   | [] => []
   | x :: l' => if p x then failing p (S i) l' else i :: failing p (S i) l'
+  end.
+
+(* the same with binary indices (tens of thousands of packed cases) *)
+Fixpoint failingN {A} (p : A -> bool) (i : N) (l : list A) : list N :=
+  match l with
+  | [] => []
+  | x :: l' => if p x then failingN p (N.succ i) l' else i :: failingN p (N.succ i) l'
+  end.
+
+Fixpoint countN {A} (p : A -> bool) (l : list A) : N :=
+  match l with
+  | [] => 0
+  | x :: l' => (if p x then 1 else 0) + countN p l'
   end.
 
 Definition opt_str_eqb (a b : option str) : bool :=
@@ -60,6 +85,19 @@ Definition model_can_report (c : ecase) : bool :=
 Definition model_reported (c : ecase) : option str :=
   if model_can_report c then Some (violation_level (ec_params c) (merged_of c) (ec_cat c) (ec_title c))
   else None.
+
+(* the model's account of every observed field, as one record *)
+Definition model_obs (c : ecase) : obs :=
+  let p := ec_params c in let m := merged_of c in
+  let cat := ec_cat c in let title := ec_title c in
+  let e := entry_of m cat title in
+  let can := if ec_is_custom c then custom_can_report p m cat title false
+             else builtin_can_report p m cat title false false in
+  let rep := if can then Some (violation_level p m cat title) else None in
+  mkObs (rule_level_of m cat title)
+        (ignored_rule p e cat title) (force_disabled p cat title) (force_enabled p cat title)
+        (level_for_rule p e cat title) (rules_to_run_has p m cat title false)
+        rep (ec_is_custom c && can) (if ec_is_custom c then rep else None).
 
 (* the model's account of every observed field *)
 Definition go_agrees (c : ecase) : bool :=
@@ -199,6 +237,7 @@ Record lcase := mkLCase {
   lc_validation_error : bool;            (* Lint refused the configuration (unknown rule / category)  *)
   lc_violations : list (str * bool);     (* violations of the rule under observation: (level, is aggregate) *)
   lc_enabled : list str;                 (* DetermineEnabledRules                                     *)
+  lc_check_agg : bool;                   (* DetermineEnabledAggregateRules was called                 *)
   lc_enabled_agg : list str;             (* DetermineEnabledAggregateRules                            *)
   lc_noticed : list (str * str);         (* bundled rules with an input-independent notice (oracle)   *)
   lc_aggregate_rules : list (str * str); (* bundled rules defining `aggregate` (oracle)               *)
@@ -256,16 +295,19 @@ Definition enabled_agrees (l : lcase) : bool :=
 
 Definition enabled_agg_agrees (l : lcase) : bool :=
   let c := lcase_full_ok l in
+  negb (lc_check_agg l) ||
   same_set (lc_enabled_agg l)
            (determine_enabled_aggregate_rules (ec_params c) (merged_of c) (lc_aggregate_rules l)
                                               (lc_custom_aggregate l)).
 
 (* the property on the implementation's own outputs: the list computed up front is exactly the
-   bundled rules main.rego would run and that have no notice, plus the custom rules that report *)
+   bundled rules main.rego would run (_rules_to_run also lists configured names that are not bundled
+   rules; they run nothing) and that have no notice, plus the custom rules that report *)
 Definition enabled_is_runnable (l : lcase) : bool :=
   negb (lc_full l) ||
   same_set (lc_enabled l)
-           (map snd (filter (fun ct => negb (pair_in (fst ct) (snd ct) (lc_noticed l))) (lc_to_run l))
+           (map snd (filter (fun ct => pair_in (fst ct) (snd ct) bundled_rules
+                                       && negb (pair_in (fst ct) (snd ct) (lc_noticed l))) (lc_to_run l))
             ++ lc_custom_reporting l).
 
 Definition lcase_agrees (l : lcase) : bool :=
@@ -274,3 +316,65 @@ Definition lcase_agrees (l : lcase) : bool :=
 (* indices into a table of names (keeps the generated case files small) *)
 Definition names_at (tbl : list (str * str)) (ix : list nat) : list (str * str) :=
   flat_map (fun i => match nth_error tbl i with Some ct => [ct] | None => [] end) ix.
+
+(* ---------------------------------------------------------------------------------------------- *)
+(* the exhaustive function-level table, computed once at build time (Check/C04Table.v) instead of
+   per run: for every input of the finite abstraction, the model's observable outputs and the
+   README decision, 4 characters per case.  tools/props/c04.py builds the same characters from what
+   /repo did and compares.  Enumeration order: k, p, then (u, c, g, f | no user config: f). *)
+Definition code_of_level (o : option str) : N :=
+  match o with
+  | None => 0
+  | Some l => if str_eqb l [] then 1 else if str_eqb l s_ignore then 2
+              else if str_eqb l s_warning then 3 else if str_eqb l s_error then 4 else 5
+  end.
+
+Definition bN (x : bool) : N := if x then 1 else 0.
+
+Definition chr (n : N) : ascii := ascii_of_N (48 + n).
+
+Definition fn_input_case (k p u c g nu f : N) : ecase :=
+  let custom := nz k in
+  let cat := if custom then C_CAT else B_CAT in
+  let title := if custom then C_TITLE else B_TITLE in
+  let decoy := N.odd (p + u + c + g + f) in
+  mkCase (provided_of_code (if custom then 4 else p))
+         (if nz nu then None else Some (user_of_codes cat title u c g))
+         [(C_CAT, C_TITLE)]
+         (params_of_flags cat title f decoy)
+         cat title custom true
+         (mkObs None false false false [] false None false None).
+
+Definition spec_code (c : ecase) : N :=
+  match spec_default c with
+  | None => 0
+  | Some d =>
+      match spec_decision (ec_params c) (ec_cat c) (ec_title c)
+                          (spec_user_level (ec_user c) (ec_cat c) (ec_title c) d) with
+      | Off => 1
+      | On l => 1 + code_of_level (Some l)
+      end
+  end.
+
+Definition fn_entry (c : ecase) : string :=
+  let o := model_obs c in
+  String (chr (code_of_level (ob_go_entry o) + 6 * bN (ob_ignored o) + 12 * bN (ob_fd o) + 24 * bN (ob_fe o)))
+  (String (chr (code_of_level (Some (ob_level o)) + 6 * bN (ob_to_run o) + 12 * bN (ob_aggregated o)))
+  (String (chr (code_of_level (ob_reported o) + 6 * code_of_level (ob_agg_reported o)))
+  (String (chr (spec_code c)) EmptyString))).
+
+Definition range (n : nat) : list N := map N.of_nat (seq 0 n).
+
+(* one chunk per (k, p, u) and one per (k, p) without user configuration, so that no single string
+   constant gets too deep for the checker's stack *)
+Definition fn_inputs_chunk (k p u : N) : list ecase :=
+  flat_map (fun c => flat_map (fun g => map (fun f => fn_input_case k p u c g 0 f) (range 64)) (range 4))
+           (range 5).
+
+Definition fn_inputs_nouser (k p : N) : list ecase := map (fun f => fn_input_case k p 0 0 0 1 f) (range 64).
+
+Fixpoint concat_strings (l : list string) : string :=
+  match l with [] => EmptyString | s :: l' => append s (concat_strings l') end.
+
+Definition fn_table_chunk (k p u : N) : string := concat_strings (map fn_entry (fn_inputs_chunk k p u)).
+Definition fn_table_nouser (k p : N) : string := concat_strings (map fn_entry (fn_inputs_nouser k p)).
